@@ -87,6 +87,8 @@ v("C09-drop-popen", "C09", "fire", RT, "            handle.process = process\n",
 v("C09-no-wakeup", "C09", "fire", "utils/sigchld.py", "        os.write(self._write_pipe, b\"\\0\")\n", "", "SG6")
 v("C09-reap-once", "C09", "fire", "utils/sigchld.py", "                SigchldHelper.instance()._add_returncode(pid, returncode)\n", "                SigchldHelper.instance()._add_returncode(pid, returncode)\n                break\n", "SG7")
 v("C09-foreign-run", "C09", "fire", RT, "        assert handle.returncode is not None\n", "        subprocess.run(['sync'], check=False)\n        assert handle.returncode is not None\n", "SG8")
+v("C09-revert-F10", "C09", "fire", "utils/sigchld.py", "        while not select.select([self._read_pipe], [], [], _WAIT_POLL_INTERVAL_S)[0]:\n            pass\n", "", "SG9")
+v("C09-unbounded-select", "C09", "fire", "utils/sigchld.py", "select.select([self._read_pipe], [], [], _WAIT_POLL_INTERVAL_S)[0]", "select.select([self._read_pipe], [], [], None)[0]", "SG9")
 # ---- C10
 v("C10-text-mode", "C10", "fire", "utils/tee.py", "with open(file_name, \"wb\") as file:", "with open(file_name, \"w\") as file:", "TEE1")
 v("C10-short-read-exit", "C10", "fire", "utils/tee.py", "                if len(data) == 0:", "                if len(data) < 4096:", "TEE1")
